@@ -189,3 +189,24 @@ Proof.
   split; [split; [apply pm_route_preserving | exact I]|].
   split; [vm_compute; reflexivity|]. split; vm_compute; reflexivity.
 Qed.
+
+(* ---- a non-trivial run of the instance: sampler path, CVaR 1/2, initial state, transpiling (layout + routing swap)
+        around batching (one foreign pub before, two after) around mutex ---- *)
+Definition ex_init : ccirc := (2%nat, [GX 1]).
+Definition ex_bell : ccirc := (2%nat, [GH 0; GCX 0 1]).
+Definition ex_flip : ccirc := (2%nat, [GRX 0 1]).
+Definition ex_other : spub ccirc cparams cwiring := (measure_all cwid (2%nat, [GX 1]), [], 64%Z).
+Definition ex_obs : cobs := [(1%Q, [(0, PZ); (1, PZ)]); ((1 # 2)%Q, [(0, PZ)])].
+Definition ex_stack : stack ccirc clayout (spub ccirc cparams cwiring) :=
+  STranspile (pm_route [(0, 2)] [(1, 2)]) (SBatch [ex_other] [ex_other; ex_other] (SMutex SRaw)).
+
+Lemma example_batch_sampler :
+  stack_ok csem cpermute ex_stack
+  /\ eval_operator_sampler ccompose cwid cagg_op (wrap_sampler cwmap ex_stack (pointwise csampler1)) 64 ex_obs (1 # 2)
+                           (Some ex_init) [ex_bell; ex_flip] [[]; [3%Z]] = Ok [(-3 # 2)%Q; (3 # 2)%Q]
+  /\ map (objective_op csem ccompose cwid cread ccounts_of cagg_op 64 ex_obs (1 # 2) (Some ex_init))
+         (combine [ex_bell; ex_flip] [[]; [3%Z]]) = [(-3 # 2)%Q; (3 # 2)%Q].
+Proof.
+  split; [split; [apply pm_route_preserving | exact I]|].
+  split; vm_compute; reflexivity.
+Qed.
